@@ -10,13 +10,41 @@ import (
 	"net/http"
 	"net/http/httptest"
 	"sync"
+	"sync/atomic"
 	"time"
 
 	frugal "github.com/Workiva/frugal/lib/go"
 	"github.com/apache/thrift/lib/go/thrift"
+	"github.com/nats-io/nats.go"
 )
 
 var rpcTransports = []string{"loop", "tcp", "http", "nats"}
+
+var e2eSeq uint64
+
+func uniq64() uint64 { return atomic.AddUint64(&e2eSeq, 1) }
+
+func fpf(proto string) *frugal.FProtocolFactory {
+	return frugal.NewFProtocolFactory(protoFactory(proto))
+}
+
+// NewTransportEnv wires a client FTransport to the given processor over one of
+// "loop", "tcp", "http", "nats" (exported for the generated-code bed). The
+// returned tee records request and reply frames.
+func NewTransportEnv(transport, proto string, proc frugal.FProcessor, natsWorkers uint) (tr frugal.FTransport, replies func() [][]byte, cleanup func(), err error) {
+	e, err := newRPCEnv(transport, proto, proc, rpcOpts{natsWorkers: natsWorkers})
+	if err != nil {
+		return nil, nil, nil, err
+	}
+	return e.tee, func() [][]byte {
+		e.tee.mu.Lock()
+		defer e.tee.mu.Unlock()
+		return append([][]byte{}, e.tee.replies...)
+	}, e.close, nil
+}
+
+// NatsConnect / StompConnect expose the in-process brokers.
+func NatsConnect() (*nats.Conn, error) { return natsConnect() }
 
 // loopT is an in-memory FTransport that hands the frame to a processor.
 type loopT struct {
